@@ -27,7 +27,8 @@
 EXTENDS Naturals, Sequences, FiniteSets, TLC, Json
 
 CONSTANTS Threads, Servers, InitServer, Try1, Try2, Apis, Behs,
-          Atomic, StaleClears, KickClears, AllowKick, AllowQuit, Sequential, Export
+          Atomic, StaleClears, KickClears, AllowKick, AllowQuit, Sequential, Export,
+          FirstRound, AckThenInstall
 
 VARIABLES prog, pc, out,     \* per thread: request, step, outcome ("", "success", "already", "inprogress", "fail")
           inflight,          \* the connInFlight slot: a thread, "fb" or "none"
@@ -36,10 +37,12 @@ VARIABLES prog, pc, out,     \* per thread: request, step, outcome ("", "success
           alive,             \* the player is still connected to the proxy
           fb,                \* fallback attempt after a kick: "none" | "run" | "done"
           fbs,               \* its target
+          fj,                \* the player's first connection (1.20.2+, first configuration round):
+                             \* "off" | "cfg" | "acked" | "early" | "installed" | "joined" | "lost"
           h                  \* schedule (history of steps)
 
-vars == <<prog, pc, out, inflight, live, cur, alive, fb, fbs, h>>
-View == <<prog, pc, out, inflight, live, cur, alive, fb, fbs>>
+vars == <<prog, pc, out, inflight, live, cur, alive, fb, fbs, fj, h>>
+View == <<prog, pc, out, inflight, live, cur, alive, fb, fbs, fj>>
 
 Try == <<Try1, Try2>>     \* the proxy's try list (cfg files hold no tuples)
 Reqs == [s : Servers, api : Apis, beh : Behs]
@@ -48,6 +51,7 @@ Init == /\ prog \in [Threads -> Reqs]
         /\ pc = [t \in Threads |-> "start"] /\ out = [t \in Threads |-> ""]
         /\ inflight = "none" /\ live = {} /\ cur = InitServer /\ alive = TRUE
         /\ fb = "none" /\ fbs = "none" /\ h = <<>>
+        /\ fj = IF FirstRound THEN "cfg" ELSE "off"
 
 Log(k, t) == h' = Append(h, [k |-> k, t |-> t])
 Busy(t) == pc[t] \notin {"start", "done"}
@@ -62,7 +66,7 @@ Check(t) == /\ pc[t] = "start" /\ alive /\ MayStart(t)
                  IF r = "" THEN /\ pc' = [pc EXCEPT ![t] = "checked"] /\ UNCHANGED out
                  ELSE /\ out' = [out EXCEPT ![t] = r]
                       /\ pc' = [pc EXCEPT ![t] = IF prog[t].api = "connect" THEN "clear" ELSE "done"]
-            /\ Log("t", t) /\ UNCHANGED <<prog, inflight, live, cur, alive, fb, fbs>>
+            /\ Log("t", t) /\ UNCHANGED <<prog, inflight, live, cur, alive, fb, fbs, fj>>
 
 Set(t) == /\ pc[t] = "checked" /\ alive
           /\ IF Atomic /\ Rejection(t) # ""
@@ -71,11 +75,11 @@ Set(t) == /\ pc[t] = "checked" /\ alive
                     /\ UNCHANGED <<inflight, live>>
                ELSE /\ inflight' = t /\ live' = live \cup {t}
                     /\ pc' = [pc EXCEPT ![t] = "dial"] /\ UNCHANGED out
-          /\ Log("t", t) /\ UNCHANGED <<prog, cur, alive, fb, fbs>>
+          /\ Log("t", t) /\ UNCHANGED <<prog, cur, alive, fb, fbs, fj>>
 
 Dial(t) == /\ pc[t] = "dial"
            /\ pc' = [pc EXCEPT ![t] = "wait"]
-           /\ Log("d", t) /\ UNCHANGED <<prog, out, inflight, live, cur, alive, fb, fbs>>
+           /\ Log("d", t) /\ UNCHANGED <<prog, out, inflight, live, cur, alive, fb, fbs, fj>>
 
 Backend(t) == /\ pc[t] = "wait"
               /\ IF prog[t].beh \in {"accept", "stall"} /\ alive
@@ -86,7 +90,7 @@ Backend(t) == /\ pc[t] = "wait"
                    ELSE /\ out' = [out EXCEPT ![t] = "fail"]
                         /\ UNCHANGED <<cur, inflight, live>>
               /\ pc' = [pc EXCEPT ![t] = "reset"]
-              /\ Log("b", t) /\ UNCHANGED <<prog, alive, fb, fbs>>
+              /\ Log("b", t) /\ UNCHANGED <<prog, alive, fb, fbs, fj>>
 
 \* err != nil (refuse, hang) skips connect()'s clear; a disconnect result runs it
 NeedsClear(t) == \/ (prog[t].api = "connect" /\ out[t] = "fail" /\ prog[t].beh \in {"kicklogin", "kickmid"})
@@ -96,12 +100,12 @@ Reset(t) == /\ pc[t] = "reset"
             /\ inflight' = IF inflight = t THEN "none" ELSE inflight
             /\ live' = live \ {t}
             /\ pc' = [pc EXCEPT ![t] = IF NeedsClear(t) THEN "clear" ELSE "done"]
-            /\ Log("t", t) /\ UNCHANGED <<prog, out, cur, alive, fb, fbs>>
+            /\ Log("t", t) /\ UNCHANGED <<prog, out, cur, alive, fb, fbs, fj>>
 
 Clear(t) == /\ pc[t] = "clear"
             /\ inflight' = IF StaleClears THEN "none" ELSE inflight
             /\ pc' = [pc EXCEPT ![t] = "done"]
-            /\ Log("t", t) /\ UNCHANGED <<prog, out, live, cur, alive, fb, fbs>>
+            /\ Log("t", t) /\ UNCHANGED <<prog, out, live, cur, alive, fb, fbs, fj>>
 
 \* the current backend kicks the player: fall back to the first server of the try list that
 \* is neither the kicking one nor the target of the attempt in flight
@@ -116,10 +120,10 @@ Kick == /\ AllowKick /\ alive /\ cur # "none" /\ fb = "none"
              IF next = "none" \/ (~KickClears /\ inflight # "none")
                THEN \* nowhere to go (or an attempt is under way and is left alone)
                     /\ alive' = (inflight # "none" /\ ~KickClears)
-                    /\ cur' = "none" /\ UNCHANGED <<inflight, live, fb, fbs>>
+                    /\ cur' = "none" /\ UNCHANGED <<inflight, live, fb, fbs, fj>>
                ELSE /\ cur' = "none" /\ inflight' = "fb" /\ live' = live \cup {"fb"}
                     /\ fb' = "run" /\ fbs' = next /\ UNCHANGED alive
-        /\ Log("kick", "") /\ UNCHANGED <<prog, pc, out>>
+        /\ Log("kick", "") /\ UNCHANGED <<prog, pc, out, fj>>
 
 \* the client quits: the proxy tears the player down (every backend connection is closed; the
 \* attempts under way fail).  Requests not yet made are not made; none sits between Check and Set.
@@ -127,23 +131,39 @@ Quit == /\ AllowQuit /\ alive /\ fb # "run"
         /\ \A t \in Threads : pc[t] # "checked"
         /\ (Sequential => \A u \in Threads : ~Busy(u))
         /\ alive' = FALSE /\ cur' = "none"
-        /\ Log("quit", "") /\ UNCHANGED <<prog, pc, out, inflight, live, fb, fbs>>
+        /\ Log("quit", "") /\ UNCHANGED <<prog, pc, out, inflight, live, fb, fbs, fj>>
 
 \* the fallback attempt is accepted by its backend (not a schedule step: nothing to force)
 Fallback == /\ fb = "run"
             /\ cur' = fbs /\ fb' = "done" /\ live' = live \ {"fb"}
             /\ inflight' = IF inflight = "fb" THEN "none" ELSE inflight
-            /\ UNCHANGED <<prog, pc, out, alive, fbs, h>>
+            /\ UNCHANGED <<prog, pc, out, alive, fbs, fj, h>>
 
-Next == Kick \/ Quit \/ Fallback \/ \E t \in Threads : Check(t) \/ Set(t) \/ Dial(t) \/ Backend(t) \/ Reset(t) \/ Clear(t)
+(* First configuration round (backendConfigSessionHandler.handleFinishedUpdate): the client's
+   acknowledgement completes a future whose callback -- on the CLIENT's goroutine -- writes the
+   FinishedUpdate acknowledgement to the backend and then installs the transition handler that
+   waits for JoinGame.  A healthy backend answers the acknowledgement with JoinGame at once; the
+   backend read loop may handle it before the handler is installed (AckThenInstall: nothing
+   stops it), the configuration handler forwards it like any other packet and the join is lost. *)
+FjVars == UNCHANGED <<prog, pc, out, inflight, live, cur, alive, fb, fbs>>
+FjAck == fj = "cfg" /\ fj' = "acked" /\ h' = Append(h, [k |-> "first", t |-> "ack"]) /\ FjVars
+FjEarly == AckThenInstall /\ fj = "acked" /\ fj' = "early" /\ h' = Append(h, [k |-> "first", t |-> "joingame"]) /\ FjVars
+FjInstall == /\ fj \in {"acked", "early"} /\ fj' = IF fj = "early" THEN "lost" ELSE "installed"
+             /\ h' = Append(h, [k |-> "first", t |-> "install"]) /\ FjVars
+FjJoin == fj = "installed" /\ fj' = "joined" /\ h' = Append(h, [k |-> "first", t |-> "joingame"]) /\ FjVars
+First == FjAck \/ FjEarly \/ FjInstall \/ FjJoin
+
+Next == First \/ Kick \/ Quit \/ Fallback \/ \E t \in Threads : Check(t) \/ Set(t) \/ Dial(t) \/ Backend(t) \/ Reset(t) \/ Clear(t)
 Spec == Init /\ [][Next]_vars
 
 ----------------------------------------------------------------------------
 AtMostOneInFlight == Cardinality(live) <= 1
 \* the slot never forgets an attempt that is still under way
 SlotTracksAttempt == live # {} => inflight # "none"
-Quiescent == (\A t \in Threads : pc[t] \in {"done"} \/ (pc[t] = "start" /\ ~alive)) /\ fb # "run"
+Quiescent == fj \in {"off", "joined", "lost"} /\ (\A t \in Threads : pc[t] \in {"done"} \/ (pc[t] = "start" /\ ~alive)) /\ fb # "run"
 QuiescentClean == Quiescent => (live = {} /\ inflight = "none")
+\* a healthy backend's JoinGame is never lost
+FirstJoinLands == fj # "lost"
 
 Emit == (Export /\ Quiescent) => PrintT(<<"SCHED", ToJson([prog |-> prog, sched |-> h])>>)
 =============================================================================
